@@ -295,7 +295,7 @@ pub fn c20_run_case(c: &C20Case, obs: &mut Obs) -> Result<u64, String> {
     }
     // the same advances once more while in a state WITHOUT a timeline (its clock is never read, but
     // it must not blow up either)
-    catch("set_state to an un-animated state", &mut || an.set_state(&St::S2))?;
+    catch("set_state to an un-animated state", &mut || an.set_state(&STATES[2]))?;
     for (n, xt) in c.advances.iter().enumerate() {
         let dt = xt.resolve(&tm);
         catch(&format!("advance({dt:?}) in an un-animated state (#{n}, {xt:?})"), &mut || an.advance(dt))?;
